@@ -139,6 +139,30 @@ def concat(a, b):
     return list(a) + list(b)
 
 
+def last(l):
+    return l[-1] if len(l) else None
+
+
+def has_qmd(n):
+    return hasattr(n, "_q_metadata")
+
+
+def qmd(n):
+    return getattr(n, "_q_metadata", None)
+
+
+def dict_has(d, k):
+    return isinstance(d, dict) and k in d
+
+
+def dict_get(d, k):
+    return d.get(k) if isinstance(d, dict) else None
+
+
+def is_dict(d):
+    return isinstance(d, dict)
+
+
 def rev(l):
     return list(reversed(list(l)))
 
